@@ -6,9 +6,10 @@ use zbus::{
     fdo, interface,
     message::Header,
     object_server::SignalEmitter,
-    zvariant::{OwnedFd, OwnedObjectPath},
+    zvariant::{ObjectPath, OwnedFd, OwnedObjectPath, OwnedValue},
     Connection, ObjectServer,
 };
+use std::collections::HashMap;
 
 /// An interface whose calls must be handled in arrival order.
 pub struct Ordered {
@@ -118,6 +119,19 @@ impl Spawning {
         Ok((1, 2))
     }
 
+    /// digits and acronyms in the member name, container arguments, array-of-struct reply
+    fn get_x11_display_2d(&self, names: Vec<String>, opts: HashMap<String, OwnedValue>) -> fdo::Result<Vec<(u32, String)>> {
+        Ok(Vec::new())
+    }
+
+    #[zbus(name = "Renamed")]
+    fn original(&self) -> u8 {
+        0
+    }
+
+    #[zbus(signal)]
+    async fn state_changed2(emitter: &SignalEmitter<'_>, old: u32, new: &str, path: ObjectPath<'_>) -> zbus::Result<()>;
+
     #[zbus(property, name = "Level")]
     fn level(&self) -> u64 {
         self.n
@@ -127,4 +141,77 @@ impl Spawning {
     fn set_level(&mut self, v: u64) {
         self.n = v;
     }
+}
+
+/// Client side of `org.zverif.Ordered`, declared separately (as a user crate would): member names,
+/// argument packing and reply types are derived by `#[proxy]` on its own, so they can be compared with
+/// what `#[interface]` derived for `Ordered` above (C33).
+#[zbus::proxy(
+    interface = "org.zverif.Ordered",
+    default_service = "org.zverif",
+    default_path = "/org/zverif/Ordered"
+)]
+pub trait OrderedClient {
+    fn plain(&self) -> zbus::Result<()>;
+
+    fn echo(&self, v: u32) -> zbus::Result<u32>;
+
+    fn push(&self, v: u32) -> zbus::Result<u32>;
+
+    fn fallible(&self, s: &str) -> zbus::Result<(u32, String)>;
+
+    fn with_ctx(&self, a: u8, b: String) -> zbus::Result<OwnedObjectPath>;
+
+    fn take_fd(&self, fd: OwnedFd) -> zbus::Result<()>;
+
+    #[zbus(signal)]
+    fn ticked(&self, n: u8) -> zbus::Result<()>;
+
+    #[zbus(property)]
+    fn set_point(&self) -> zbus::Result<u32>;
+
+    #[zbus(property)]
+    fn set_set_point(&self, v: u32) -> zbus::Result<()>;
+
+    #[zbus(property)]
+    fn settings(&self) -> zbus::Result<String>;
+
+    #[zbus(property)]
+    fn set_settings(&self, v: String) -> zbus::Result<()>;
+
+    #[zbus(property(emits_changed_signal = "const"))]
+    fn fixed(&self) -> zbus::Result<u8>;
+
+    #[zbus(property(emits_changed_signal = "invalidates"))]
+    fn secret(&self) -> zbus::Result<String>;
+
+    #[zbus(property(emits_changed_signal = "false"))]
+    fn quiet(&self) -> zbus::Result<u16>;
+
+    #[zbus(property)]
+    fn set_quiet(&self, v: u16) -> zbus::Result<()>;
+}
+
+/// Client side of `org.zverif.Spawning`.
+#[zbus::proxy(interface = "org.zverif.Spawning", default_service = "org.zverif", default_path = "/org/zverif/Spawning")]
+pub trait SpawningClient {
+    fn bump(&self, by: u64) -> zbus::Result<u64>;
+
+    fn fail(&self) -> zbus::Result<()>;
+
+    fn two(&self) -> zbus::Result<(u32, u32)>;
+
+    fn get_x11_display_2d(&self, names: Vec<String>, opts: HashMap<String, OwnedValue>) -> zbus::Result<Vec<(u32, String)>>;
+
+    #[zbus(name = "Renamed")]
+    fn original(&self) -> zbus::Result<u8>;
+
+    #[zbus(signal)]
+    fn state_changed2(&self, old: u32, new: &str, path: ObjectPath<'_>) -> zbus::Result<()>;
+
+    #[zbus(property, name = "Level")]
+    fn level(&self) -> zbus::Result<u64>;
+
+    #[zbus(property, name = "Level")]
+    fn set_level(&self, v: u64) -> zbus::Result<()>;
 }
